@@ -330,6 +330,9 @@ KIND_EXPRS = [
     "r.n == 'three'",
     "Type.record.k == 3",
     "len(fields('string')) == 1",
+    # what fields() answers belongs to the record being judged, not to an earlier one
+    "any(f.name == 'w' for f in fields('string'))",
+    "not any(f.name == 'k' for f in fields('varint'))",
     # true on records that lack the fields they mention (negation, disjunction with a field-free test)
     "not (r.x == 3)",
     "not r.w",
